@@ -82,8 +82,13 @@ func c16Call(name string, w *workspace) string {
 	writeCSV(filepath.Join(dir, "Game#ItemConf.csv"), item)
 	writeCSV(filepath.Join(dir, "Game#RewardConf.csv"), reward)
 	writeCSV(filepath.Join(dir, "Game#"+msName+".csv"), [][]string{{"Sheet", "Mode"}, {"Kind", "MODE_ENUM_TYPE"}, {"ItemConf", ""}, {"RewardConf", ""}})
+	// an XML workbook next to the CSV one (its schema comment is found through the metasheet name)
+	xmlDoc := "<?xml version=\"1.0\" encoding=\"UTF-8\" ?>\n<!--\n<" + msName + ">\n    <Item Sheet=\"DocConf\" />\n</" + msName + ">\n\n<DocConf>\n    <Item ID=\"{Item}uint32\" Num=\"int32\"/>\n</DocConf>\n-->\n\n<DocConf>\n    <Item ID=\"" + ids[0] + "\" Num=\"5\"/>\n</DocConf>\n"
+	if err := os.WriteFile(filepath.Join(dir, "Doc.xml"), []byte(xmlDoc), 0o644); err != nil {
+		panic(err)
+	}
 	po := &options.ProtoOption{
-		Input:  &options.ProtoInputOption{ProtoPaths: []string{w.Proto}, Formats: []format.Format{format.CSV}, MetasheetName: metasheet, Header: &options.HeaderOption{NameRow: 1, TypeRow: 2, NoteRow: 3, DataRow: 4, Sep: ",", Subsep: ":"}},
+		Input:  &options.ProtoInputOption{ProtoPaths: []string{w.Proto}, Formats: []format.Format{format.CSV, format.XML}, MetasheetName: metasheet, Header: &options.HeaderOption{NameRow: 1, TypeRow: 2, NoteRow: 3, DataRow: 4, Sep: ",", Subsep: ":"}},
 		Output: &options.ProtoOutputOption{},
 	}
 	protoSetters := []options.Option{options.Proto(po), options.Log(quietLog), options.Lang(lang)}
@@ -94,7 +99,7 @@ func c16Call(name string, w *workspace) string {
 		return "protoerr " + errCode(err)
 	}
 	co := &options.ConfOption{
-		Input:  &options.ConfInputOption{ProtoPaths: []string{w.Proto}, ProtoFiles: []string{filepath.Join(w.Proto, "*.proto")}, Formats: []format.Format{format.CSV}},
+		Input:  &options.ConfInputOption{ProtoPaths: []string{w.Proto}, ProtoFiles: []string{filepath.Join(w.Proto, "*.proto")}, Formats: []format.Format{format.CSV, format.XML}},
 		Output: &options.ConfOutputOption{Formats: []format.Format{format.JSON}},
 	}
 	if err := tableau.GenConf("protoconf", w.In, w.Conf, options.Conf(co), options.Log(quietLog), options.Lang(lang), options.LocationName("UTC")); err != nil {
